@@ -158,7 +158,7 @@ def route_worker(rt):
             except PathCut: pass          # keep going after a token is minted: later state changes on the same path are examined too
         H.ex.on_mint = on_mint
     try:
-        H, paths, path = sweep.run_route(ir, rt, budget_s=200, extra=extra, max_paths=60000)
+        H, paths, path = sweep.run_route(ir, rt, budget_s=600, extra=extra, max_paths=60000)
     except Unsupported as e:
         out['inconclusive'] = str(e); return out
     if paths is None: out['inconclusive'] = 'no handler body'; return out
